@@ -1,6 +1,6 @@
 //! C01 - compressed graph is a lossless partition of the input k-mer table.
 use super::note;
-use crate::case::{GCase, Part};
+use vglue::case::{GCase, Part};
 use crate::pipe::*;
 use debruijn::compression::*;
 use debruijn::graph::BaseGraph;
